@@ -809,7 +809,9 @@ func (c08Stream) Class(c Case, impl string) (string, bool) {
 //   stoprouter: Stop waits for a connection whose handler is busy; the application calls Router() meanwhile; the
 //               handler returns: the connection is closed and reported, Stop and Router() return.
 func c08Servers(kind string) string {
-	curTracer.Store(NewTracer())
+	tr := NewTracer()
+	curTracer.Store(tr)
+	defer tr.ReleaseAll()
 	var mu sync.Mutex
 	closed := map[int]int{}
 	seen := map[string]int{} // client tag -> connection id its handler saw
@@ -970,10 +972,17 @@ func c08Servers(kind string) string {
 		case <-time.After(3 * time.Second):
 			return "harness-error the busy handler never started"
 		}
+		// a second request of that connection has been read and is about to be dispatched when Stop and Router() arrive
+		// (held at the instrumentation point behind the read)
+		g := tr.Block("loop.read", 1, 2)
+		_ = busy.send(Seq(Int(2, 2), C(1, 0, Int(2, 3), Oct("cn=late"), P(2, 0, []byte("pw")))).Ser())
+		g.Arrived(3 * time.Second)
 		stopped, routed := make(chan struct{}), make(chan struct{})
 		go func() { _ = a.Stop(); close(stopped) }()
 		time.Sleep(30 * time.Millisecond)
 		go func() { _ = a.Router(mkMux()); close(routed) }()
+		time.Sleep(30 * time.Millisecond)
+		g.Release()
 		time.Sleep(30 * time.Millisecond)
 		close(release)
 		for _, x := range []struct {
